@@ -1401,7 +1401,7 @@ pub fn gen(rng: &mut Rng, tier: &str, out: &mut Vec<String>) {
     let k = if tier == "thorough" { 20 } else { 1 };
     // documented / design reproducers first
     out.push("quant.fast cont f32 20 18 - 428d2ec2,3ee93b54,42466cd6,3ee98848,0".into()); // D4, P=24
-    out.push("quant.fast cont f32 20 1c - 428d2ec2,3ee93b54,42466cd6,3ee98848,0".into()); // D4, P=28
+    out.push("quant.fast cont f32 20 1f - 428d2ec2,3ee93b54,42466cd6,3ee98848,0".into()); // D4, P=31
     out.push("quant.fast cont f32 20 20 - 428d2ec2,3ee93b54,42466cd6,3ee98848,0".into()); // D4, P=32
     out.push("quant.lazy f32 20 18 - 428d2ec2,3ee93b54,42466cd6,3ee98848,0 | table | dec ffffff | dec fffffe | enc 4".into());
     out.push("quant.fast cont f64 20 18 - 3ff0000000000000,bfe0000000000000,3ff0000000000000".into()); // D14
